@@ -76,6 +76,12 @@ MODULES = {
     'util': dict(file='pyctr/util.py', kernels=[
         dict(py='roundup', coq='roundup', args=[('offset', INT), ('alignment', INT)], ret=INT),
     ]),
+    'savecommon': dict(file='pyctr/type/save/partdesc/common.py', imports=['util'], extfuncs={'roundup': ('roundup', [INT, INT], INT, False)}, kernels=[
+        dict(py='get_block_range', coq='get_block_range', args=[('offset', INT), ('size', INT), ('block_size', INT)]),
+    ]),
+    'dpfs': dict(file='pyctr/type/save/partdesc/dpfs.py', kernels=[
+        dict(py='DPFSLevelChunkBase.get_active_bit', coq='get_active_bit', args=[('bit', INT)], ret=BOOL, selfattrs={'u32_list': SEQ}),
+    ]),
     'ncch': dict(file='pyctr/type/ncch.py', kernels=[
         dict(py='NCCHFlags.from_bytes', coq='ncchflags_from_bytes', args=[('flag_bytes', SEQ)]),
         dict(py='NCCHReader.__init__', coq='region_iv', kwarg_of=('NCCHRegion', 'iv'),
